@@ -165,7 +165,16 @@ fn run_unit_inner(unit: &Unit, tier: &str, limit: &dyn Fn() -> Duration) -> Unit
         match child.try_wait() {
             Ok(Some(st)) => break Some(st),
             Ok(None) => {
-                if start.elapsed() > limit() {
+                // The limit is on the child's CPU time (a loop that makes no progress burns CPU), so
+                // that a loaded machine does not turn slow children into "hangs"; wall-clock time is
+                // only a generous backstop for a child that sleeps forever.
+                let lim = limit();
+                let cpu = cpu_time(child.id());
+                let hung = match cpu {
+                    Some(c) => c > lim || start.elapsed() > lim * 20,
+                    None => start.elapsed() > lim,
+                };
+                if hung {
                     let _ = child.kill();
                     let _ = child.wait();
                     break None;
@@ -202,6 +211,18 @@ fn run_unit_inner(unit: &Unit, tier: &str, limit: &dyn Fn() -> Duration) -> Unit
     };
     let tail: String = stderr.lines().rev().take(4).collect::<Vec<_>>().join(" | ");
     UnitOutcome::Crashed(format!("{how}; stderr: {}", vcore::short(&tail)))
+}
+
+/// CPU time (user + system) consumed so far by process `pid`, from /proc.
+pub fn cpu_time(pid: u32) -> Option<Duration> {
+    let stat = std::fs::read_to_string(format!("/proc/{pid}/stat")).ok()?;
+    // fields after the command name (which may contain spaces): split at the last ')'
+    let rest = &stat[stat.rfind(')')? + 1..];
+    let f: Vec<&str> = rest.split_whitespace().collect();
+    // rest starts at field 3 (state); utime = field 14, stime = field 15
+    let utime: u64 = f.get(11)?.parse().ok()?;
+    let stime: u64 = f.get(12)?.parse().ok()?;
+    Some(Duration::from_millis((utime + stime) * 10)) // USER_HZ = 100 on Linux
 }
 
 /// Result of exploring all units.
